@@ -569,6 +569,15 @@ def oracle_run(spec: dict, pspec, fault: str | None = None, max_rounds: int | No
                 res = p(model)
         except Exception as e:  # noqa: BLE001
             raised = type(e).__name__
+            # the identity rule enforced by PassBase.__call__ must never be tripped by built-in passes or by
+            # compositions of them (Sequential / PassManager / functionalize are built-in passes themselves)
+            x, depth = e, 0
+            while x is not None and depth < 10:
+                if type(x).__name__ == "PassError" and "same object as the input model" in str(x):
+                    fail("identity", "a built-in pass (composition) violated the in-place/functional identity rule: "
+                         + str(x)[:160])
+                    break
+                x, depth = (x.__cause__ or x.__context__), depth + 1
         if raised is not None:
             rounds.append({"raised": raised})
             if kind in ("analysis", "shape"):
